@@ -9,6 +9,7 @@ package c30
 
 import (
 	"fmt"
+	"hash/fnv"
 	"testing"
 
 	link_solicit "github.com/aperturerobotics/bifrost/link/solicit"
@@ -23,12 +24,34 @@ type pc struct {
 	c string
 }
 
-func (x pc) String() string { return fmt.Sprintf("(%q,%q)", x.p, x.c) }
+func (x pc) String() string {
+	if len(x.p)+len(x.c) > 200 {
+		return fmt.Sprintf("(id %d bytes %q..., context %d bytes, fnv %x)", len(x.p), x.p[:min(16, len(x.p))], len(x.c), x.fnv())
+	}
+	return fmt.Sprintf("(%q,%q)", x.p, x.c)
+}
+
+func (x pc) fnv() uint64 {
+	h := fnv.New64a()
+	h.Write([]byte(x.p))
+	h.Write([]byte{0xff, 0x00})
+	h.Write([]byte(x.c))
+	return h.Sum64()
+}
+
+// witness describes a pair in a violation report: full strings when short,
+// lengths + hex prefix + the whole concatenation's shape when long.
+func (x pc) witness() map[string]any {
+	if len(x.p)+len(x.c) <= 2048 {
+		return map[string]any{"protocol_id": x.p, "context": x.c, "protocol_id_len": len(x.p), "context_len": len(x.c)}
+	}
+	return map[string]any{"protocol_id_len": len(x.p), "context_len": len(x.c), "protocol_id_first_64": x.p[:min(64, len(x.p))], "context_first_64": x.c[:min(64, len(x.c))], "note": "protocol_id || context is one string split at protocol_id_len"}
+}
 
 func TestCheck(t *testing.T) {
 	r := vf.Start(t, "C30", vf.Exploration)
 	defer r.Finish()
-	r.SetRule("Part 1: for several session ids, a table hash -> (protocol id, context) over generated pairs: every split of PRNG strings (p||c fixed, boundary moved: the boundary-shifted family), the design's universe, PRNG pairs, empty/nil contexts, contexts starting with the tail of the id; two different pairs with the same hash = violation; same pair twice must hash equally. Part 2: two real solicitation controllers on two controller buses joined by harness links (fake MountedLinks, in-memory streams, HandleMountedStream dispatch like the transport controller); scenario = per node a PRNG set of SolicitProtocol directives over a small universe (protocol ids / contexts incl. boundary-shifted ones, peer constraint in {none, right, wrong}, transport constraint in {0, right, other link's, wrong}), 1-2 links; static scenarios register all directives (idle) before the links appear, dynamic ones (one third) bring the links up first and then register the directives one by one in a PRNG order. Oracle (harness ground truth, independent of any hash): directive d on node X receives a value for link L iff d admits L and the other node has a directive with the same (p,c) admitting L; checked at quiescence (all goroutines parked, stream byte counters stable); the 'only if' direction is checked for every directive, the 'if' direction for every directive of a static scenario and for the first registered one per (p,c) and node in a dynamic scenario. Non-trivial = a pure pair whose concatenation equals that of another pair, or a scenario in which at least one match is expected and at least one (p,c)-overlap is refused by a constraint or by differing (p,c); distinct = distinct pair / scenario")
+	r.SetRule("Part 1: for several session ids, a table hash -> (protocol id, context) over generated pairs: every split of PRNG strings (p||c fixed, boundary moved: the boundary-shifted family), boundary-shifted families at every scale (one base string of 257..~70k bytes split at i and at i+k for k in {1,2,127..129,255..257,511..513,768,1024,4096,65535..65537}, and with the context length in {0,1,255,256,257,512}: what a too narrow or wrapped length prefix confuses), the design's universe, PRNG pairs, empty/nil contexts, contexts starting with the tail of the id; two different pairs with the same hash = violation; same pair twice must hash equally. Part 2: two real solicitation controllers on two controller buses joined by harness links (fake MountedLinks, in-memory streams, HandleMountedStream dispatch like the transport controller); scenario = per node a PRNG set of SolicitProtocol directives over a small universe (protocol ids / contexts incl. boundary-shifted ones, peer constraint in {none, right, wrong}, transport constraint in {0, right, other link's, wrong}), 1-2 links; static scenarios register all directives (idle) before the links appear, dynamic ones (one third) bring the links up first and then register the directives one by one in a PRNG order. one scenario in four is built around requests on one bus that differ only in the context (empty vs non-empty, prefix of each other) or only in the protocol id, in either registration order, the other node soliciting a PRNG subset of them. Every harness-side request has its own reference and value handler and is judged by its own (p,c,constraints), also when the bus de-duplicates it onto an earlier request's directive (only exception: requests differing in nothing but the transport constraint on a tree that merges them, property C37 - not generated, inconclusive if seen). Oracle (harness ground truth, independent of any hash): directive d on node X receives a value for link L iff d admits L and the other node has a directive with the same (p,c) admitting L; checked at quiescence (all goroutines parked, stream byte counters stable); the 'only if' direction is checked for every directive, the 'if' direction for every directive of a static scenario and for the first registered one per (p,c) and node in a dynamic scenario. Non-trivial = a pure pair whose concatenation equals that of another pair, or a scenario in which at least one match is expected and at least one (p,c)-overlap is refused by a constraint or by differing (p,c); distinct = distinct pair / scenario")
 
 	purePart(r)
 	g10sol.RunTwoNodeC30(r)
@@ -97,6 +120,67 @@ func purePart(r *vf.Run) {
 		}
 	}
 
+	// boundary-shifted families at every scale: one base string s, split at i and
+	// at i+k for shifts k around the powers of 256 (a length prefix that is too
+	// narrow - 1, 2 bytes - or a length taken modulo something makes exactly such
+	// pairs collide), ids / contexts of several hundred to ~70k bytes.
+	shifts := []int{1, 2, 127, 128, 129, 255, 256, 257, 511, 512, 513, 768, 1024, 4096, 65535, 65536, 65537}
+	bigStr := func(l int) string {
+		b := make([]byte, l)
+		if rng.IntN(2) == 0 {
+			pat := make([]byte, 1+rng.IntN(13))
+			for i := range pat {
+				pat[i] = byte('a' + rng.IntN(26))
+			}
+			for i := range b {
+				b[i] = pat[i%len(pat)]
+			}
+		} else {
+			for i := 0; i < l; i += 8 {
+				v := rng.Uint64()
+				for k := 0; k < 8 && i+k < l; k++ {
+					b[i+k] = byte(v >> (8 * k))
+				}
+			}
+		}
+		return string(b)
+	}
+	nBig := 0
+	family := func(l, i int) {
+		s := bigStr(l)
+		add(s[:i], s[i:])
+		nBig++
+		for _, k := range shifts {
+			if i+k <= l {
+				add(s[:i+k], s[i+k:])
+				nBig++
+			}
+		}
+	}
+	// the smallest witnesses of a one-byte / two-byte length: (1, 256) vs (257, 0)
+	family(257, 1)
+	family(258, 1)
+	family(513, 1)
+	family(65537, 1)
+	family(65538, 2)
+	for k := r.N(48, 600); k > 0; k-- {
+		l := 258 + rng.IntN(3000)
+		family(l, 1+rng.IntN(l/4))
+	}
+	for k := r.N(6, 60); k > 0; k-- {
+		l := 65538 + rng.IntN(5000)
+		family(l, 1+rng.IntN(2000))
+	}
+	// shifts taken from the END: the context keeps a fixed short length class
+	for k := r.N(12, 200); k > 0; k-- {
+		l := 600 + rng.IntN(2000)
+		s := bigStr(l)
+		for _, c := range []int{0, 1, 255, 256, 257, 512} {
+			add(s[:l-c], s[l-c:])
+			nBig++
+		}
+	}
+
 	concatCount := map[string]int{}
 	distinctPairs := map[pc]struct{}{}
 	for _, x := range pairs {
@@ -121,31 +205,54 @@ func purePart(r *vf.Run) {
 				}
 				h2 = link_solicit.ComputeProtocolHash(sid, protocol.ID(x.p), c2)
 			}); pk {
-				r.Violation("ComputeProtocolHash/panic", "panicked: "+pd, map[string]any{"sid": vf.Hex(sid), "p": x.p, "c": x.c})
+				r.Violation("ComputeProtocolHash/panic", "panicked: "+pd, map[string]any{"sid": vf.Hex(sid), "pair": x.witness()})
 				continue
 			}
 			nt := concatCount[x.p+x.c] > 1
 			if nt {
 				shifted++
 			}
-			r.Case(fmt.Sprintf("pure|%x|%q|%q", sid, x.p, x.c), nt)
+			if len(x.p)+len(x.c) > 200 {
+				r.Case(fmt.Sprintf("pure|%x|long|%d|%d|%x", sid, len(x.p), len(x.c), x.fnv()), nt)
+				r.Count("hashes_computed_pairs_longer_than_200_bytes", 2)
+				if len(x.p) >= 256 {
+					r.Count("hashes_computed_ids_of_256_bytes_or_more", 2)
+				}
+				if len(x.p) >= 65536 {
+					r.Count("hashes_computed_ids_of_65536_bytes_or_more", 2)
+				}
+			} else {
+				r.Case(fmt.Sprintf("pure|%x|%q|%q", sid, x.p, x.c), nt)
+			}
 			r.Count("hashes_computed", 2)
 			if string(h) != string(h2) {
-				r.Violation("ComputeProtocolHash/nondeterministic", "same (sid, protocol id, context) hashed differently", map[string]any{"sid": vf.Hex(sid), "p": x.p, "c": x.c})
+				r.Violation("ComputeProtocolHash/nondeterministic", "same (sid, protocol id, context) hashed differently", map[string]any{"sid": vf.Hex(sid), "pair": x.witness()})
 			}
 			if prev, ok := seen[string(h)]; ok && prev != x {
 				cls := "other"
 				if prev.p+prev.c == x.p+x.c {
 					cls = "boundary-shift"
+					d := len(prev.p) - len(x.p)
+					if d < 0 {
+						d = -d
+					}
+					switch {
+					case d%65536 == 0:
+						cls = "boundary-shift-by-multiple-of-65536"
+					case d%256 == 0:
+						cls = "boundary-shift-by-multiple-of-256"
+					}
 				}
 				r.Violation("ComputeProtocolHash/collision/"+cls, "two different (protocol id, context) pairs have the same solicitation hash, so they would be matched with each other",
-					map[string]any{"sid": vf.Hex(sid), "pair1": map[string]string{"protocol_id": prev.p, "context": prev.c}, "pair2": map[string]string{"protocol_id": x.p, "context": x.c}, "hash": vf.Hex(h)})
+					map[string]any{"sid": vf.Hex(sid), "pair1": prev.witness(), "pair2": x.witness(), "hash": vf.Hex(h)})
 			}
 			seen[string(h)] = x
 		}
 	}
 	r.Count("pure_cases_with_boundary_shifted_sibling", shifted)
 	r.Extra("pure_distinct_pairs", len(distinctPairs))
+	r.Extra("pure_large_scale_shifted_pairs", nBig)
+	r.Extra("pure_shifts", fmt.Sprint(shifts))
 	r.Extra("pure_session_ids", len(sids))
 	r.Sample(map[string]any{"kind": "pure", "pair1": `("ab","c")`, "pair2": `("a","bc")`, "note": "boundary-shifted pairs are part of the table"})
 }
